@@ -210,6 +210,157 @@ func Run(c *engine.Ctx) {
 	}
 
 	lookups(c, idNames)
+	afterMutation(c)
+	wide(c)
+}
+
+// afterMutation: lookups and matching interleaved with in-place changes of the list; every answer must reflect the
+// list as it is now (judged against the same question put to a freshly built equal list).
+func afterMutation(c *engine.Ctx) {
+	c.Group("lookup-after-mutation")
+	mk := func() *sbom.NodeList {
+		return &sbom.NodeList{Nodes: []*sbom.Node{
+			variant{H: [2]int{2, 0}, Purl: 1}.build("n0"), variant{H: [2]int{3, 0}, Purl: 2}.build("n1"), variant{H: [2]int{0, 2}}.build("n2"),
+		}, RootElements: []string{"n0"}}
+	}
+	type mut struct {
+		name string
+		do   func(nl *sbom.NodeList)
+	}
+	on := func(nl *sbom.NodeList, id string, f func(n *sbom.Node)) {
+		if n := nl.GetNodeByID(id); n != nil {
+			f(n)
+		}
+	}
+	muts := []mut{
+		{"change hash of n0", func(nl *sbom.NodeList) { on(nl, "n0", func(n *sbom.Node) { n.Hashes = map[int32]string{algos[0]: h2} }) }},
+		{"add hash to n2", func(nl *sbom.NodeList) { on(nl, "n2", func(n *sbom.Node) { n.AddHash(sbom.HashAlgorithm_SHA1, h1) }) }},
+		{"change purl of n1", func(nl *sbom.NodeList) {
+			on(nl, "n1", func(n *sbom.Node) { n.Identifiers = map[int32]string{int32(sbom.SoftwareIdentifierType_PURL): p1} })
+		}},
+		{"rename n0", func(nl *sbom.NodeList) { on(nl, "n0", func(n *sbom.Node) { n.Name = "renamed" }) }},
+		{"remove n0", func(nl *sbom.NodeList) { nl.RemoveNodes([]string{"n0"}) }},
+		{"add node n3 (copy of n0)", func(nl *sbom.NodeList) {
+			if nl.GetNodeByID("n3") == nil {
+				nl.AddNode(variant{H: [2]int{2, 0}, Purl: 1}.build("n3"))
+			}
+		}},
+		{"change id of n1", func(nl *sbom.NodeList) { on(nl, "n1", func(n *sbom.Node) { n.Id = "n9" }) }},
+		{"make n2 a root", func(nl *sbom.NodeList) { nl.RootElements = append(nl.RootElements, "n2") }},
+		{"turn n0 into a file", func(nl *sbom.NodeList) { on(nl, "n0", func(n *sbom.Node) { n.Type = sbom.Node_FILE }) }},
+	}
+	probes := []variant{{H: [2]int{2, 0}}, {H: [2]int{3, 0}}, {H: [2]int{2, 2}}, {Purl: 1}, {Purl: 2}, {H: [2]int{0, 2}, Purl: 1}}
+	answers := func(nl *sbom.NodeList) string {
+		var sb strings.Builder
+		for _, pv := range probes {
+			n, err := nl.GetMatchingNode(pv.build("probe"))
+			id := "nil"
+			if n != nil {
+				id = n.Id
+			}
+			fmt.Fprintf(&sb, "match(%s)=%s/%v;", pv, id, err != nil)
+		}
+		for _, id := range []string{"n0", "n1", "n2", "n3", "n9"} {
+			fmt.Fprintf(&sb, "id(%s)=%v;", id, nl.GetNodeByID(id) != nil)
+		}
+		for _, nm := range []string{"name-1", "name-2", "name-0", "renamed"} {
+			fmt.Fprintf(&sb, "name(%s)=%s;", nm, ids(nl.GetNodesByName(nm)))
+		}
+		fmt.Fprintf(&sb, "purl=%s;", ids(nl.GetNodesByIdentifier("purl", p1)))
+		fmt.Fprintf(&sb, "roots=%s;", ids(nl.GetRootNodes()))
+		fmt.Fprintf(&sb, "apk=%s;", ids(nl.GetNodesByPurlType("apk").Nodes))
+		return sb.String()
+	}
+	c.Bound("lookup-after-mutation", fmt.Sprintf("all sequences of <=2 of %d in-place mutations, the full question set asked before and after each; answers compared with a freshly built list that had the same mutations applied without any question asked in between", len(muts)))
+	for i := range muts {
+		for j := -1; j < len(muts); j++ {
+			i, j := i, j
+			c.Case(func() any {
+				l := []string{muts[i].name}
+				if j >= 0 {
+					l = append(l, muts[j].name)
+				}
+				return l
+			}, func(t *engine.T) *engine.Violation {
+				live, fresh := mk(), mk()
+				_ = answers(live)
+				muts[i].do(live)
+				muts[i].do(fresh)
+				t.Transitions(2)
+				if j < 0 {
+					if a, b := answers(live), answers(fresh); a != b {
+						return engine.Violate("stale-answer", "", "after %q the list answers\n %s\na list that was never queried before answers\n %s", muts[i].name, a, b)
+					}
+				} else {
+					_ = answers(live)
+					muts[j].do(live)
+					muts[j].do(fresh)
+					if a, b := answers(live), answers(fresh); a != b {
+						return engine.Violate("stale-answer", "", "after %q and %q the list answers\n %s\na list that was never queried before answers\n %s", muts[i].name, muts[j].name, a, b)
+					}
+				}
+				t.Validated(1)
+				t.State(fmt.Sprintf("mut|%d|%d", i, j))
+				t.Outcome("after-mutation-ok")
+				return nil
+			})
+		}
+	}
+}
+
+// wide: 40 nodes (size class); one, two or forty of them match the probe.
+func wide(c *engine.Ctx) {
+	c.Group("wide-list")
+	c.Bound("wide-list", "lists of 40 nodes in which k in {0,1,2,17,33,40} nodes hash-match the probe and m in {0,1,2} of those share its purl, matching nodes first / last / interleaved")
+	for _, k := range []int{0, 1, 2, 17, 33, 40} {
+		for m := 0; m <= 2 && m <= k; m++ {
+			for layout := 0; layout < 3; layout++ {
+				k, m, layout := k, m, layout
+				c.Case(func() any { return map[string]int{"hash-matching": k, "of-those-with-probe-purl": m, "layout": layout} }, func(t *engine.T) *engine.Violation {
+					nodes := make([]*sbom.Node, 40)
+					for i := range nodes {
+						v := variant{H: [2]int{3, 0}, Purl: 2}
+						pos := i
+						if layout == 1 {
+							pos = 39 - i
+						} else if layout == 2 {
+							pos = (i * 7) % 40
+						}
+						if pos < k {
+							v = variant{H: [2]int{2, 0}, Purl: 2}
+							if pos < m {
+								v.Purl = 1
+							}
+						}
+						nodes[i] = v.build(fmt.Sprintf("w%02d", i))
+					}
+					nl := &sbom.NodeList{Nodes: nodes}
+					probe := variant{H: [2]int{2, 0}, Purl: 1}.build("probe")
+					got, err := nl.GetMatchingNode(probe)
+					want := refMatch(nl.Nodes, probe)
+					t.Transitions(1)
+					t.Validated(1)
+					obs, w := "nil", "nil"
+					if err != nil {
+						obs = "ambiguous"
+					} else if got != nil {
+						obs = got.Id
+					}
+					if want.err {
+						w = "ambiguous"
+					} else if want.id != "" {
+						w = want.id
+					}
+					if obs != w {
+						return engine.Violate("match-rule", "wide", "40-node list: GetMatchingNode gives %s, documented rule gives %s", obs, w)
+					}
+					t.State(fmt.Sprintf("wide|%d|%d|%d", k, m, layout))
+					t.Outcome("wide-ok")
+					return nil
+				})
+			}
+		}
+	}
 }
 
 func matchCase(t *engine.T, cur []variant, pv variant, idNames []string) *engine.Violation {
